@@ -358,7 +358,15 @@ static int g_fair_run = 3000;
 static FILE* g_dummy;
 /* guide: run the named thread until one of its steps changes tracked memory */
 #define GUIDE_ENV (-1000)
-static int* g_guide;
+/* guide directive: "t<k>" = run thread k until one of its steps changes tracked memory;
+   "t<k>@<fn>:<field>" = run thread k until it has performed an access to a tracked field named
+   <field> from function <fn> (a read the model behaviour places at this position); "env" */
+typedef struct {
+  int thr;
+  char fn[64];
+  char fld[32];
+} guide_t;
+static guide_t* g_guide;
 static int g_nguide, g_iguide;
 /* replay */
 static int* g_replay;
@@ -396,7 +404,7 @@ static void end_run(const char* why) __attribute__((noreturn));
 static void emit_init_fields(int from) {
   /* {"k":"init","w":{...}} for fields from index `from` */
   if (from >= g_nfld) return;
-  if (g_on && self && g_guide && g_iguide < g_nguide && g_guide[g_iguide] == self->idx) g_iguide++;
+  if (g_on && self && g_guide && g_iguide < g_nguide && g_guide[g_iguide].thr == self->idx && !g_guide[g_iguide].fn[0]) g_iguide++;
   buf_printf("{\"i\":%ld,\"k\":\"reg\",\"t\":\"t%d\",\"w\":[", g_evno++, self ? self->idx : 0);
   int first = 1;
   for (int i = from; i < g_nfld; i++) {
@@ -409,8 +417,18 @@ static void emit_init_fields(int from) {
   buf_printf("]}\n");
 }
 
+/* VRT_STALL=<fn>:<field>:<k>: the thread that completes the k-th access to a tracked field <field>
+   from function <fn> is parked until no other thread can make progress (or for 5000 scheduling
+   points): the maximal delay at a chosen read - e.g. between taking a snapshot and the
+   compare-and-swap that uses it.  tools/check.py derives the points from the read events seen in
+   ordinary executions of the scenario (scenario key "stall"). */
+static char g_stall_fn[64], g_stall_fld[32];
+static int g_stall_k, g_stall_seen, g_stalled = -1;
+static long g_stall_points;
+
 static int eligible(vthread_t* t) {
   if (!t->alive || !t->started) return 0;
+  if (t->idx == g_stalled) return 0;
   if (t->wait_for >= 0 && g_thr[t->wait_for].alive) return 0;
   if (t->yielding == Y_IDLE && g_have_wakeidle) return g_nonempty > 0 || t->yield_epoch != g_qepoch;
   if (t->yielding && t->yield_epoch == g_epoch) return 0;
@@ -445,7 +463,7 @@ static int pick(vthread_t* cur) {
   for (int k = 0; k < g_nenv; k++)
     if (g_env[k].enabled()) en[ne++] = k;
   while (g_guide && g_iguide < g_nguide) {
-    int d = g_guide[g_iguide];
+    int d = g_guide[g_iguide].thr;
     if (d == GUIDE_ENV) {
       g_iguide++;
       if (ne) return -1 - en[0];
@@ -455,7 +473,14 @@ static int pick(vthread_t* cur) {
         !(g_thr[d].wait_for >= 0 && g_thr[g_thr[d].wait_for].alive) &&
         !(g_thr[d].yielding && g_thr[d].yield_epoch == g_epoch && g_thr[d].quiet_points > 3 * g_spin_limit))
       return d;
+    buf_printf("{\"i\":%ld,\"k\":\"note\",\"guide_stop\":%d}\n", g_evno++, g_iguide);
     g_iguide = g_nguide; /* infeasible: fall back to the seeded policy */
+  }
+  if (g_stalled >= 0 && (n == 0 || ++g_stall_points > 5000)) {
+    int p = g_stalled;
+    g_stalled = -1;
+    buf_printf("{\"i\":%ld,\"k\":\"note\",\"stall_end\":%d,\"others_quiet\":%d}\n", g_evno++, p, n == 0);
+    if (g_thr[p].alive && !(g_thr[p].wait_for >= 0 && g_thr[g_thr[p].wait_for].alive)) return p;
   }
   if (n == 0) {
     /* nothing can run: give idle pollers one extra poll per epoch (kernel-side
@@ -567,7 +592,27 @@ static void diff_and_emit(vthread_t* s, int force) {
     }
   }
   line[n] = 0;
-  if (changed && g_guide && g_iguide < g_nguide && g_guide[g_iguide] == s->idx) g_iguide++;
+  if (g_stall_k > 0 && g_stalled < 0 && g_stall_seen < g_stall_k && s->fldidx >= 0 && s->pc) {
+    const char* key = g_fld[s->fldidx].key;
+    const char* dot = strrchr(key, '.');
+    if (dot && !strcmp(dot + 1, g_stall_fld) && !strcmp(fn_of(s->pc), g_stall_fn) && ++g_stall_seen == g_stall_k) {
+      g_stalled = s->idx;
+      g_stall_points = 0;
+      buf_printf("{\"i\":%ld,\"k\":\"note\",\"stall_begin\":%d}\n", g_evno++, s->idx);
+    }
+  }
+  if (g_guide && g_iguide < g_nguide && g_guide[g_iguide].thr == s->idx) {
+    const guide_t* gd = &g_guide[g_iguide];
+    if (gd->fn[0]) {
+      if (s->fldidx >= 0 && s->pc) {
+        const char* key = g_fld[s->fldidx].key;
+        const char* dot = strrchr(key, '.');
+        if (dot && !strcmp(dot + 1, gd->fld) && !strcmp(fn_of(s->pc), gd->fn)) g_iguide++;
+      }
+    } else if (changed)
+      g_iguide++;
+    if (g_iguide == g_nguide) buf_printf("{\"i\":%ld,\"k\":\"note\",\"guide_done\":%d}\n", g_evno++, g_nguide);
+  }
   if (s->uw_addr) {
     uint64_t now = 0;
     memcpy(&now, (void*)s->uw_addr, s->uw_size > 8 ? 8 : s->uw_size);
@@ -832,18 +877,40 @@ void vrt_init(void) {
     g_pct_k = (int)vrt_getenv_int("VRT_PCT_K", 600);
     for (int d = 0; d < g_pct_d; d++) g_pct_pts[d] = 1 + (long)rnd((unsigned)g_pct_k);
   }
+  const char* sp_ = getenv("VRT_STALL");
+  if (sp_ && *sp_) {
+    char tmp[160];
+    snprintf(tmp, sizeof tmp, "%s", sp_);
+    char* c1 = strchr(tmp, ':');
+    char* c2 = c1 ? strchr(c1 + 1, ':') : NULL;
+    if (c1 && c2) {
+      *c1 = *c2 = 0;
+      snprintf(g_stall_fn, sizeof g_stall_fn, "%s", tmp);
+      snprintf(g_stall_fld, sizeof g_stall_fld, "%s", c1 + 1);
+      g_stall_k = atoi(c2 + 1);
+    }
+  }
   const char* gp = getenv("VRT_GUIDE");
   if (gp && *gp) {
     FILE* f = fopen(gp, "r");
     if (f) {
-      char w[32];
+      char w[128];
       int cap = 0;
-      while (fscanf(f, "%31s", w) == 1) {
+      while (fscanf(f, "%127s", w) == 1) {
         if (g_nguide == cap) {
           cap = cap ? cap * 2 : 256;
-          g_guide = realloc(g_guide, sizeof(int) * (size_t)cap);
+          g_guide = realloc(g_guide, sizeof(guide_t) * (size_t)cap);
         }
-        g_guide[g_nguide++] = (w[0] == 't') ? atoi(w + 1) : GUIDE_ENV;
+        guide_t* gd = &g_guide[g_nguide++];
+        memset(gd, 0, sizeof *gd);
+        gd->thr = (w[0] == 't') ? atoi(w + 1) : GUIDE_ENV;
+        char* at = strchr(w, '@');
+        char* col = at ? strchr(at, ':') : NULL;
+        if (at && col) {
+          *col = 0;
+          snprintf(gd->fn, sizeof gd->fn, "%s", at + 1);
+          snprintf(gd->fld, sizeof gd->fld, "%s", col + 1);
+        }
       }
       fclose(f);
     }
